@@ -98,9 +98,42 @@ def uint_pairs(rng, bits, n):
     return [(N % m, d) for N, d in out if N >= 0]
 
 
+def translate(repo, lean):
+    """C03's theorems rest on the C14 division model, which uses the reciprocal table and the word kernels
+    regenerated from the source: regenerate them here too, so that a change there breaks C03's obligations as well."""
+    import props.c14 as c14
+    info = c14.translate(repo, lean)
+    info['note'] = 'delegated to tools/props/c14.py: translate (reciprocal TABLE + rs2lean word kernels)'
+    return info
+
+
+def suspect_row_uint_cases(rng):
+    """table rows whose per-row facts fail: divisors found by C14's row scan (a search aid), pushed through the Uint API
+    as the top limb of 1-, 2- and 3-limb divisors (the reciprocal of the normalised top limb(s) is what the kernels use)."""
+    import props.c14 as c14
+    out = []
+    W = 1 << 64
+    for i in c14.SUSPECT_ROWS:
+        ds = []
+        for c in c14.suspect_row_cases(rng, i, scan=400000, emit=200):
+            t = c.split(' ')
+            if t[0] == 'recip':
+                ds.append(int(t[2], 16))
+        for d in ds[:4000]:
+            sh = rng.randrange(0, 64)
+            for bits, dv in ((64, d), (64, d >> sh if d >> sh else d), (128, d), (128, (d << 64) | rng.getrandbits(64)),
+                             (192, (d << 64) | rng.getrandbits(64)), (256, (d << 128) | rng.getrandbits(128)), (256, d)):
+                m = (1 << bits) - 1
+                for N in (m, rng.getrandbits(bits), (dv * rng.getrandbits(max(bits - dv.bit_length(), 1)) + dv - 1) & m):
+                    out.append('divrem %d %x %x' % (bits, N, dv))
+    return out
+
+
 def gen(rng, tier):
     thorough = tier != 'quick'
     exh = 7 if thorough else 5
+    for c in suspect_row_uint_cases(rng):
+        yield c
     for bits in range(0, exh + 1):
         for a in range(1 << bits):
             for b in range(1 << bits):
